@@ -216,6 +216,12 @@ pub struct Style {
     pub blank_lines: bool,
     pub interleaved_comments: bool,
     pub footer_lines: usize,
+    /// Extra comment lines before / after the data block, to make files larger than any
+    /// plausible internal buffer (16, 32, 64, 128 KiB).
+    #[serde(default)]
+    pub bulk_before: usize,
+    #[serde(default)]
+    pub bulk_after: usize,
 }
 
 fn sep_str(sep: u8, rng: &mut Rng) -> String {
@@ -255,6 +261,9 @@ pub fn render(table: &[Entry], style: &Style, rng: &mut Rng) -> String {
     if style.blank_lines {
         lines.push(String::new());
     }
+    for _ in 0..style.bulk_before {
+        lines.push((*rng.pick(&COMMENTS)).to_string());
+    }
     for (i, &(ts, dat)) in table.iter().enumerate() {
         let mut l = format!("{ts}{}{dat}", sep_str(style.sep, rng));
         if style.trailing_comment {
@@ -274,7 +283,7 @@ pub fn render(table: &[Entry], style: &Style, rng: &mut Rng) -> String {
     if style.blank_lines && rng.chance(1, 2) {
         lines.push(String::new());
     }
-    for _ in 0..style.footer_lines {
+    for _ in 0..style.footer_lines + style.bulk_after {
         lines.push((*rng.pick(&COMMENTS)).to_string());
     }
     if style.hash_line {
@@ -327,6 +336,8 @@ pub fn random_style(rng: &mut Rng) -> Style {
         blank_lines: rng.chance(1, 3),
         interleaved_comments: rng.chance(1, 4),
         footer_lines: if rng.chance(1, 2) { 0 } else { rng.urange(1, 6) },
+        bulk_before: 0,
+        bulk_after: 0,
     }
 }
 
@@ -377,10 +388,25 @@ pub fn build_pool(shipped_text: String, shipped_table: Vec<Entry>, n_rendered: u
     for i in 0..n_rendered {
         let mut r = rng.fork();
         let (table, tclass) = random_table(&mut r);
-        let style = random_style(&mut r);
+        let mut style = random_style(&mut r);
+        // One image in eight is large: comment bulk (average line about 50 bytes) sized to cross
+        // 16, 32, 64 or 128 KiB, placed before the data, after it, or split around it.
+        let mut big = "";
+        if i % 8 == 7 {
+            let target_lines = *r.pick(&[340usize, 700, 1400, 2800]);
+            match r.below(3) {
+                0 => style.bulk_before = target_lines,
+                1 => style.bulk_after = target_lines,
+                _ => {
+                    style.bulk_before = target_lines / 2;
+                    style.bulk_after = target_lines / 2;
+                }
+            }
+            big = "+big";
+        }
         let text = render(&table, &style, &mut r);
         let class = format!(
-            "{tclass}{}{}",
+            "{tclass}{}{}{big}",
             if style.crlf { "+crlf" } else { "" },
             if style.final_newline { "" } else { "+nofinalnl" }
         );
